@@ -28,18 +28,30 @@ def scenarios(ctx, rend):
         ("only-comment", "# nothing"), ("print-no-newline", "print(\"x\")"), ("print-no-newline-fail", "print(\"x\")\nzz"), ("printf", "printf(\"%d-%s\\n\", 3, \"a\")"),
         ("core-keys", "println(len(keys({\"a\": 1})))"), ("core-range", "println(range(3))"), ("import", "s = import(\"strings\")\nprintln(s.ToUpper(\"ok\"))"),
         ("import-missing", "import(\"nosuchpackage\")"), ("defer-top", "defer println(2)\nprintln(1)"), ("go-noop", "println(1)"),
+        # a Go function that panics inside a native call is an ordinary run error for the library (default options), so also for the command
+        ("native-panic-keys", "println(1)\nkeys(1)\nprintln(2)"), ("native-panic-range", "println(1)\nrange()"), ("send-closed", "c = make(chan int64, 1)\nclose(c)\nprintln(1)\nc <- 1"),
+        ("close-closed", "c = make(chan int64)\nclose(c)\nclose(c)"), ("native-panic-in-func", "func f() { return keys(1) }\ntry { f() } catch e { println(\"caught\") }\nf()"),
+        ("native-panic-caught", "try { keys(1) } catch e { println(\"caught\") }\nprintln(3)"),
+        # the source is handed to the library byte for byte: long lines, CR LF inside raw strings, no final newline, NUL-free binary-ish text
+        ("long-line-fail", "x = \"" + "a" * 70000 + "\"\nprintln(len(x))\nzz"), ("long-line-ok", "x = \"" + "b" * 140000 + "\"\nprintln(len(x))"),
+        ("crlf-raw-string", "a = `x\r\ny`\nprintln(len(a))\nif len(a) != 4 { throw \"raw string changed\" }"), ("crlf-lines", "println(1)\r\nprintln(2)\r\nzz\r\n"),
+        ("cr-only", "println(1)\rprintln(2)"), ("no-final-newline", "println(7)"), ("tabs-ff", "println(1)\t\n\x0cprintln(2)"), ("utf8", "println(\"héllo wörld ✓\")\nthrow \"ü\""),
         ("div-zero", "println(1 % 0)"), ("deep-error", "func f() { return g() }\nfunc g() { throw \"deep\" }\nprintln(0)\nf()"),
     ]
     scripts += [("sp-" + n, s) for n, s in special]
     out = []
     for sid, src in scripts:
         for mode in ("file", "e"):
+            if mode == "e" and len(src) > 100000:      # one argv string is limited to 128 KiB by the kernel: not a property of the command
+                continue
             out.append({"id": "%s-%s" % (sid, mode), "mode": mode, "src": src, "args": ["x1", "y2"], "readable": True})
     for sid, src in scripts[-len(special):]:
         out.append({"id": "%s-noargs" % sid, "mode": "file", "src": src, "args": [], "readable": True})
-        out.append({"id": "%s-e-noargs" % sid, "mode": "e", "src": src, "args": [], "readable": True})
+        if len(src) <= 100000:
+            out.append({"id": "%s-e-noargs" % sid, "mode": "e", "src": src, "args": [], "readable": True})
     for k in range(3):
-        out.append({"id": "unreadable-%d" % k, "mode": "file", "src": "println(1)", "args": ["a"] * k, "readable": False})
+        for how in ("missing", "dir", "perm"):
+            out.append({"id": "unreadable-%s-%d" % (how, k), "mode": "file", "src": "println(1)", "args": ["a"] * k, "readable": False, "unread": how})
     return out
 
 
